@@ -78,6 +78,9 @@ MC = {
     "C18": [("MC_Random.tla", "MC_Random.cfg", Q_, ()), ("MC_Random.tla", "MC_Random_deep.cfg", T_, ())],
     "C19": [("MC_Ladder.tla", "MC_Ladder.cfg", QT, ())],
 }
+# unbounded symbolic lemmas (Apalache) about the full-width limb idioms: property -> invariants of ApaLimbs.tla
+APALACHE = {"C13": ["LeLemma"], "C07": ["ReduceLemmaN"], "C18": ["ReduceLemmaN"], "C12": ["ReduceLemmaP"], "C03": ["ReduceLemmaP"]}
+
 # named deviations of the implementation-shaped modules: each MUST make TLC report a violation (the toy
 # checks are not vacuous).  (module, base cfg, text to replace, replacement)
 DEVIATIONS = {
@@ -340,8 +343,28 @@ ASSUME = [
 
 
 # ------------------------------------------------------------------ trace-validated properties
+def run_apalache(specdir, work, inv, expect_error=False):
+    out = tempfile.mkdtemp(prefix="apa_", dir=work)
+    t0 = time.time()
+    try:
+        r = subprocess.run(["apalache-mc", "check", "--init=Init", "--next=Next", "--inv=" + inv, "--length=0", "--out-dir=" + out, "ApaLimbs.tla"],
+                           cwd=specdir, capture_output=True, text=True, timeout=600)
+        txt = r.stdout + r.stderr
+    except subprocess.TimeoutExpired:
+        txt = "TIMEOUT"
+    shutil.rmtree(out, ignore_errors=True)
+    ok = ("The outcome is: Error" in txt) if expect_error else ("The outcome is: NoError" in txt)
+    return {"module": "ApaLimbs.tla", "cfg": "apalache-mc --inv=" + inv, "ok": ok, "generated": 0, "distinct": 0, "wall": round(time.time() - t0, 1), "out": txt, "symbolic": True}
+
+
 def run_mc_stage(prop, tier, specdir, work):
     mc_results = []
+    for inv in APALACHE.get(prop, []):
+        r = run_apalache(specdir, work, inv)
+        mc_results.append(r)
+        log("  Apalache %-20s %-6s (all 2^512 pairs of 256-bit values, symbolic) %.0fs" % (inv, "ok" if r["ok"] else "FAIL", r["wall"]))
+        if not r["ok"]:
+            raise Inconclusive("Apalache did not discharge %s: %s" % (inv, r["out"][-800:]))
     for (module, cfg, tiers, extra) in MC.get(prop, []):
         if tier in tiers:
             r = run_mc(specdir, work, module, cfg, timeout=1500 if tier == "thorough" else 400, extra=extra)
@@ -692,6 +715,9 @@ def selftest(work):
             caught = "is violated" in r["out"]
             log("  %-62s %s" % ("%s with %s" % (cfg, new), "violation found by TLC as expected" if caught else "NOT CAUGHT"))
             ok = ok and caught
+    r = run_apalache(specdir, work, "WrongLemma", expect_error=True)
+    log("  %-62s %s" % ("ApaLimbs.tla WrongLemma (borrow chain without the last borrow)", "counterexample found by Apalache as expected" if r["ok"] else "NOT CAUGHT"))
+    ok = ok and r["ok"]
     log("selftest: %s" % ("all rejections happened" if ok else "FAILED"))
     return 0 if ok else 2
 
